@@ -34,7 +34,12 @@ def parseLinkDestination(string: str, pos: int, maximum: int) -> _Result:
                 result.ok = True
                 return result
 
-            if code == 0x5C and pos + 1 < maximum:  # \
+            # a backslash never escapes a line ending
+            if (
+                code == 0x5C  # \
+                and pos + 1 < maximum
+                and charCodeAt(string, pos + 1) != 0x0A
+            ):
                 pos += 2
                 continue
 
@@ -59,8 +64,10 @@ def parseLinkDestination(string: str, pos: int, maximum: int) -> _Result:
         if code == 0x5C and pos + 1 < maximum:
             if charCodeAt(string, pos + 1) == 0x20:
                 break
-            pos += 2
-            continue
+            # a backslash never escapes a line ending: it is a literal backslash then
+            if charCodeAt(string, pos + 1) != 0x0A:
+                pos += 2
+                continue
 
         if code == 0x28:  # /* ( */)
             level += 1
